@@ -263,6 +263,8 @@ def run_real(C, bq, br, q, r, phi, fv, dt, v, nul, explicit, tol, B0, timeout=20
     from pygyro.advection.advection import PoloidalAdvection
     C.B0 = B0
     eta = [r, q, np.linspace(0, 1, 4), np.linspace(0, 1, 4)]
+    # another operator on the same spaces with the other scheme / boundary mode is built first in the same process
+    PoloidalAdvection(eta, [bq, br], C, nulEdge=not nul, explicitTrap=not explicit, tol=100 * tol)
     adv = PoloidalAdvection(eta, [bq, br], C, nulEdge=nul, explicitTrap=explicit, tol=tol)
     f = fv.copy()
     with_timeout(timeout, lambda: adv.step(f, dt, phi, v))
